@@ -320,8 +320,16 @@ def find_children_for_parent(var_collector: Collector, parent_node: ParentNode, 
         return process_dict_breadth_first(parent_node, variable_type.__name__, value)
     elif variable_type.__name__ in LIST_LIKE_TYPES:
         return process_list_breadth_first(var_collector, parent_node, value)
-    elif isinstance(value, Exception):
-        return process_list_breadth_first(var_collector, parent_node, value.args)
+    elif issubclass(variable_type, Exception):
+        # (isinstance would look up value.__class__, which runs the application's __getattribute__)
+        try:
+            args = value.args
+            if not isinstance(args, (tuple, list)):
+                args = ()
+        except Exception:
+            logging.debug("Cannot read the arguments of %s", variable_type)
+            args = ()
+        return process_list_breadth_first(var_collector, parent_node, args)
     else:
         # not every object has an attribute dictionary (bytes, slotted objects, generators, ...),
         # and looking it up can run user code (__getattr__), so this must not fail the collection
